@@ -167,8 +167,9 @@ def dump(db, file_object, delimiter=',', **options):
 
         # sort signals:
         signal_hash = {}
-        for sig in frame.signals:
-            signal_hash["%02d" % int(sig.get_startbit()) + sig.name] = sig
+        for position, sig in enumerate(frame.signals):
+            # (the position keeps signals of one name at one start bit - two multiplexer groups - apart)
+            signal_hash[("%02d" % int(sig.get_startbit()) + sig.name, position)] = sig
 
         additional_frame_info = [
             frame.attribute(frameInfo, default="")
